@@ -4,7 +4,7 @@ import run, gen
 
 VERIF = run.VERIF
 REPO = run.REPO
-EVID = os.path.join(VERIF, "evidence")
+EVID = os.path.join(VERIF, "evidence") if REPO == "/repo" else os.path.join(VERIF, ".work", "scratch-evidence")
 REPLAY = os.path.join(VERIF, ".work", "replay")
 KNOWN = os.path.join(VERIF, "known-findings.txt")
 
